@@ -101,6 +101,12 @@ def misc_cases(rng, n, ctx):
         else:
             cases.append({'id': 'm%04d-cx' % i, 'ev': 'cfmt', 's': zs, 're': format(o, str(sig)), 'im': format(o2, str(sig))})
             cases.append({'id': 'm%04d-cxstr' % i, 'ev': 'cfmt', 's': str(z), 're': str(o), 'im': str(o2)})
+            # a flag acts on the leading character of the real part; the imaginary part always carries its sign
+            for flag in ('+', ' ', '-'):
+                for spec, resp, imsp in ((flag + str(sig), flag + str(sig), str(sig)), (flag, flag, '')):
+                    zf = _fmt(z, spec)
+                    cases.append({'id': 'm%04d-cxflag-%s' % (i, spec.replace(' ', 's')), 'ev': 'cfmt', 's': zf, 're': format(o, resp), 'im': format(o2, imsp)}
+                                 if not isinstance(zf, Exception) else {'id': 'm%04d-cxflag' % i, 'ev': 'raised', 't': type(zf).__name__})
         # without error
         bare = pe.cov_Obs(v, 0.0, 'fmt0')
         cases.append({'id': 'm%04d-plain' % i, 'ev': 'plain', 'value': rat(float(bare.value)), 's': str(bare)})
@@ -121,12 +127,17 @@ def prior_cases(rng, n, ctx):
     xs = np.arange(1, 6)
     ys = [pe.pseudo_Obs(1.0 + 0.5 * x, 0.05, 'P|r1', samples=30) for x in xs]
     [y.gamma_method() for y in ys]
-    hand = ['1.0(5)', '0.5(5)', '13.02(45)', '13.0(4.5)', '1302(46)', '-0.0004(10)', '0.500(100)', '13020(4567)', '0.5(9.9)', '1.234(46)', '2(1)', '-3.10(25)']
+    hand = ['1.0(5)', '0.5(5)', '13.02(45)', '13.0(4.5)', '1302(46)', '-0.0004(10)', '0.500(100)', '13020(4567)', '0.5(9.9)', '1.234(46)', '2(1)', '-3.10(25)',
+            '0.5(2.0)', '0.55(7.00)', '9.96(10.0)', '1.0(1.0)', '0.50(3)', '0.300(15)', '2.00(25)', '0.00001(2)', '0.5(24.8)', '13(100.0)']
     for i in range(n):
         if i < len(hand):
             s0, s1 = hand[i], hand[(i + 1) % len(hand)]
         else:
             o = _obs(float(rng.normal()) * 10 ** rng.uniform(-2, 2), float(10 ** rng.uniform(-3, 1)))
+            if i % 3 == 0:
+                # errors larger than the value, close to a power of ten (printed with their own decimal point, possibly after a carry)
+                v0 = float(np.round(rng.uniform(0.1, 9.9), 2))
+                o = _obs(v0, float(rng.choice([0.996, 1.0, 2.0, 9.96, 10.0, 99.96, 7.0])) * float(rng.choice([1.0, 1.0, 0.1])))
             s0 = format(o, str(int(rng.integers(1, 5))))
             s1 = '0.5(5)'
         try:
@@ -160,6 +171,13 @@ def plottable_cases(rng, n, ctx):
         cases.append({'id': 'plot-%03d' % i, 'ev': 'plottable', 'xs': [int(x) for x in xs], 'ys': [ratx(float(v)) for v in ysv], 'yerrs': [ratx(float(v)) for v in ye],
                       'defined': defined, 'values': [rat(float(c.content[t][0].value)) for t in defined],
                       'dvalues': [rat(float(c.content[t][0].dvalue)) for t in defined]})
+        # the view is of the errors the entries carry NOW: re-analyse them by another route (entry by entry, other parameters) and look again
+        for t in defined:
+            c.content[t][0].gamma_method(S=0 if t % 2 else 4.0)
+        xs, ysv, ye = c.plottable()
+        cases.append({'id': 'plot-%03d-again' % i, 'ev': 'plottable', 'xs': [int(x) for x in xs], 'ys': [ratx(float(v)) for v in ysv], 'yerrs': [ratx(float(v)) for v in ye],
+                      'defined': defined, 'values': [rat(float(c.content[t][0].value)) for t in defined],
+                      'dvalues': [rat(float(c.content[t][0].dvalue)) for t in defined]})
     return cases
 
 
@@ -168,6 +186,6 @@ def run(ctx):
     q = ctx.quick
     cases = grid_cases(ctx, 'Gen_Format_small.cfg' if q else 'Gen_Format.cfg', 7 if q else 1)
     cases += misc_cases(rng, 150 if q else 2000, ctx)
-    cases += prior_cases(rng, 24 if q else 200, ctx)
+    cases += prior_cases(rng, 60 if q else 400, ctx)
     cases += plottable_cases(rng, 10 if q else 100, ctx)
     ctx.validate('FormatTrace', cases)
